@@ -183,7 +183,7 @@ def classify(spec):
             if not rest:
                 heads.append(k)
         elif kind == 'getter':
-            if by[args[0]][0][0] != 'functor':
+            if by[args[0]][0][0] not in ('functor', 'getter'):
                 ok = False
                 break
         elif kind == 'loader':
@@ -845,7 +845,9 @@ class C02(fw.Check):
             return
         if not (isinstance(m, list) and m and m[0] == 'all'):
             raise fw.MachineryError(f'model driver rejected a case: {m!r:.200}')
-        _, mrun, mdask, mpf, mpf2, mvin, mwf = m
+        _, mrun, mdask, mpf, mpf2, mvin, mwf, mam = m
+        if info['valid'] and (mam == 'true') != info['pyfunc']:
+            self.diverge('Table.applyMode vs harness classification of the pyfunc domain', witness, info['pyfunc'], mam)
         if (mwf == 'true') != info['valid'] and info['why'] in (None, 'duplicate key', 'unbound argument', 'cyclic'):
             self.diverge('Table.ranked vs harness validity', witness, info['valid'], mwf)
         calls = {b: {r[3] for r in o['records'] if r[0] == 'call'} for b, o in res.items()}
@@ -898,7 +900,9 @@ class C02(fw.Check):
                 elif o['status'] == 'ok' or o.get('stage') == 'call2':
                     if info['valid'] and o.get('result', [None])[0] != R.digest_canon(mpf[1]):
                         self.diverge('pyfunc return value', witness, o['result'][1], mpf[1])
-                    if mpf2[0] == 'ok':
+                    if not info['pyfunc']:
+                        pass  # outside the runner's domain (e.g. a train functor keeps its state between calls)
+                    elif mpf2[0] == 'ok':
                         if o['status'] != 'ok':
                             self.diverge('pyfunc second call outcome', witness, o.get('error'), 'ok')
                         elif info['valid'] and o['result2'][0] != R.digest_canon(mpf2[2]):
